@@ -52,7 +52,7 @@ def main(argv):
             print("KNOWN-FINDING: property=%s key=%s %s" % (pid, k, part.known().get((pid, k), "")))
         print("replay of %s: property holds on this case" % argv[2])
         return 0
-    tier = os.environ.get("VERIF_TIER") or mode
+    tier = mode if mode in ("quick", "thorough") else (os.environ.get("VERIF_TIER") or mode)   # "auto": take VERIF_TIER
     if tier not in ("quick", "thorough"):
         return usage()
     t0 = time.time()
